@@ -92,9 +92,9 @@ def argv_seqs(maxlen):
 def model_tests(struct):
     """{class: [(method, tagged, fails, certain)]}: every test a class owns
     or inherits.  tagged by the model: method tag, or tag on the class itself
-    or on a base class it was inherited together with.  `certain` is False
-    where the statement does not say (own, untagged method of an untagged
-    subclass of a tagged class)."""
+    or (as the decorator sets a class attribute) on a base class.  `certain` is
+    False where the statement does not say: an untagged method seen through an
+    untagged subclass of a tagged class."""
     byname = dict((c['name'], c) for c in struct)
     out = {}
     for c in struct:
@@ -108,9 +108,8 @@ def model_tests(struct):
         tests = {}
         for k in reversed(chain):
             for (m, t, f) in k['methods']:
-                owner_tagged = any(x['tag'] for x in chain[chain.index(k):])
                 tagged = bool(t) or ctag_inh
-                certain = bool(t) or ctag_own or owner_tagged or not ctag_inh
+                certain = bool(t) or ctag_own or not ctag_inh
                 tests[m] = (m, tagged, bool(f), certain)
         out[c['name']] = [tests[m] for m in sorted(tests)]
     return out
@@ -131,6 +130,7 @@ def build_module(struct, log, keep=None):
                 if _f:
                     raise AssertionError('deliberate failure')
             body.__name__ = m
+            body.__module__ = MODNAME
             if t and keep is None:
                 body = tag(body)
             ns[m] = body
@@ -205,7 +205,10 @@ class C19(Check):
     ]
 
     def layers(self, tier):
-        L = [('argv0', 'no options: every structure, every trailer'),
+        L = [('pytest', 'pytest route: referencepytest.tagged(config, items) on '
+                        'stub items for every structure x {--tagged, '
+                        '--istagged} subsets x module-level functions'),
+             ('argv0', 'no options: every structure, every trailer'),
              ('argv1', 'one option token'),
              ('argv2', 'two option tokens')]
         if tier == 'thorough':
@@ -213,6 +216,13 @@ class C19(Check):
         return L
 
     def cases(self, tier, layer):
+        if layer == 'pytest':
+            for s in structures(tier):
+                for opts in ([], ['--tagged'], ['--istagged'],
+                             ['--tagged', '--istagged']):
+                    for funcs in ([], [['test_f', 1], ['test_g', 0]]):
+                        yield {'struct': s, 'pytest': opts, 'funcs': funcs}
+            return
         n = int(layer[-1])
         for s in structures(tier):
             if n == 3 and len(s) > 2:
@@ -234,7 +244,81 @@ class C19(Check):
         self.RT.verbose = True
         self.rtc.ReferenceTestCase.verbose = True
 
+    def run_pytest_case(self, case):
+        from tdda.referencetest import referencepytest, tag
+        R = Res()
+        struct, opts, funcs = case['struct'], case['pytest'], case['funcs']
+        log = []
+        mod = build_module(struct, log)
+        mt = model_tests(struct)
+
+        class Item(object):
+            def __init__(self, obj, name, ident, tagged, certain):
+                self.obj, self.name = obj, name
+                self.ident, self.mtagged, self.certain = ident, tagged, certain
+
+        items = []
+        for (fname, ftag) in funcs:
+            def fn():
+                pass
+            fn.__name__ = fname
+            fn.__module__ = MODNAME
+            if ftag:
+                fn = tag(fn)
+            items.append(Item(fn, fname, fname, bool(ftag), True))
+        for c in sorted(mt):
+            cls = getattr(mod, c)
+            for (m, tg, f, ce) in mt[c]:
+                inst = cls(m)
+                items.append(Item(getattr(inst, m), m, '%s.%s' % (c, m), tg, ce))
+
+        class Config(object):
+            def getoption(self, name, default=None):
+                return True if name in opts else default
+
+        before = list(items)
+        out = io.StringIO()
+        with contextlib.redirect_stdout(out):
+            referencepytest.tagged(Config(), items)
+        R.ev()
+        ntag = sum(1 for i in before if i.mtagged)
+        R.nontrivial = bool(opts) and 0 < ntag < len(before)
+        printed = out.getvalue().split()
+        R.out('pytest:%s:%d/%d' % ('+'.join(o[2:] for o in opts) or 'none',
+                                   len(items), len(before)))
+        sig = 'pytest-route:%s' % ('+'.join(o[2:] for o in opts) or 'none')
+        if '--istagged' in opts:
+            if items:
+                R.viol(sig + ':items-left', 'list-runs-none',
+                       {'opts': opts, 'left': [i.ident for i in items]})
+            if all(i.certain for i in before):
+                want = set('%s.%s' % (MODNAME, c) for c in mt
+                           if any(tg for (m, tg, f, ce) in mt[c]))
+                want |= set('%s.%s' % (MODNAME, n) for (n, t) in funcs if t)
+                if set(printed) != want:
+                    R.viol(sig + ':names', 'list-names-classes',
+                           {'opts': opts, 'printed': sorted(set(printed)),
+                            'expected': sorted(want)})
+            else:
+                R.unspec += 1
+        elif '--tagged' in opts:
+            got = [i.ident for i in items]
+            must = [i.ident for i in before if i.mtagged and i.certain]
+            may = set(i.ident for i in before if not i.certain)
+            if not all(i.certain for i in before):
+                R.unspec += 1
+            if [g for g in got if g not in may] != must:
+                R.viol(sig + ':selection', 'executed-exactly-tagged',
+                       {'opts': opts, 'kept': got, 'expected': must})
+        else:
+            if [i.ident for i in items] != [i.ident for i in before] or printed:
+                R.viol(sig + ':untouched', 'without-option-every-test-runs',
+                       {'kept': [i.ident for i in items], 'printed': printed})
+        return R
+
     def run_case(self, case):
+        if 'pytest' in case:
+            return self.run_pytest_case(case)
         R = Res()
         struct, argv = case['struct'], case['argv']
         sem = [TOKSEM[t] for t in argv]
